@@ -2,16 +2,22 @@
 operation sequences (all attributes after every operation), plus the direct oracle that evaluates
 the C08 predicates on the real object after each operation.  Failing sequences are shrunk by delta
 debugging over the operation recipes."""
+import atexit
+import contextlib
+import io
 import math
+import os
 import random
+import shutil
+import tempfile
 import numpy as np
 import vlib
 from vlib import Result, f2b, enc_list, close
 
 PROP = 'C08'
 META = {
-    'level_text': 'Lean 4 theorems, for every linearly ordered field, every grid, every distribution and operation sequences of every length (induction over the operation list), about an executable model of reset / createBackup / revert / changeSizeClasses / addSizeClasses / adjustSizeClassesEuler / UpdatePBMEuler / LoadDistribution and the ...FromN moment functions: the consistency invariant (class count >= 1, array lengths, boundaries = linspace(min,max) strictly increasing from min to max, centres = midpoints, populations >= 0, consistent backup) holds after construction and is preserved by every operation under its stated precondition (inv_init, inv_step, inv_run, inv_spec); extension leaves existing boundaries, populations, centres and every moment unchanged; re-meshing preserves the third moment iff (newV != 0 or M3 = 0), and the unrestricted claim is refuted on concrete rational witnesses (remesh_can_vanish, adjust_can_vanish, adjust_can_vanish_224); adaptive cap; reset; backup/revert across operations; moment purity.  The model is tied to PopulationBalance.py by differential correspondence on random operation sequences on every run (every attribute after every operation) and the predicates are also evaluated directly on the implementation.',
-    'level_note': 'Trusted: Lean kernel + Mathlib, axioms propext/Classical.choice/Quot.sound (the concrete witnesses are evaluated by the kernel, `decide +kernel`, no extra axioms); the hand model KawinV.Grid equals the NumPy code only as far as this run compared them (about 900 / 12000 operation sequences); exact-field arithmetic instead of IEEE doubles (strict monotonicity of linspace and exact moment equality on extension are exact-field facts, monitored on doubles to tolerance); NaN/inf populations, NumPy length-1 broadcasting and PSD recording (record / setPSDtoRecordedTime) are outside the model; radii are assumed non-negative (cMin >= 0).  The full claim "re-meshing preserves M3 whenever the new grid covers the populated range" is FALSE of the code (recorded finding remesh-vanish-no-new-centre-in-support); the theorem proved is the iff-characterisation.  adjustSizeClassesEuler can raise IndexError (PSDsize[int(minBins/2)] on a grid with fewer classes): the model returns none there and the invariant theorem speaks about successful operations.',
+    'level_text': 'Lean 4 theorems, for every linearly ordered field, every grid, every distribution and operation sequences of every length (induction over the operation list), about an executable model of reset / createBackup / revert / changeSizeClasses / addSizeClasses / adjustSizeClassesEuler / UpdatePBMEuler / LoadDistribution / enableRecording / record / setPSDtoRecordedTime / saveRecordedPSD / loadRecordedPSD and the ...FromN moment functions: the consistency invariant (class count >= 1, array lengths, boundaries = linspace(min,max) strictly increasing from min to max, centres = midpoints, populations >= 0, consistent backup) holds after construction and is preserved by every operation under its stated precondition (inv_init, inv_step, inv_run, inv_spec); extension leaves existing boundaries, populations, centres and every moment unchanged; re-meshing preserves the third moment iff (newV != 0 or M3 = 0), and the unrestricted claim is refuted on concrete rational witnesses (remesh_can_vanish, adjust_can_vanish, adjust_can_vanish_224); adaptive cap; reset; backup/revert across operations; every recorded row stays a consistent grid and setPSDtoRecordedTime (first / last / blended record) preserves the invariant; moment purity, also stated along histories (moments_after_run, moments_history_independent: after ANY valid operation sequence, including revert and loading a record, every ...FromN function is the moment of the supplied N on the CURRENT boundaries).  The model is tied to PopulationBalance.py by differential correspondence on random operation sequences on every run (every attribute after every operation) and the predicates are also evaluated directly on the implementation.',
+    'level_note': 'Trusted: Lean kernel + Mathlib, axioms propext/Classical.choice/Quot.sound (the concrete witnesses are evaluated by the kernel, `decide +kernel`, no extra axioms); the hand model KawinV.Grid equals the NumPy code only as far as this run compared them (about 900 / 12000 operation sequences with interleaved moment queries); exact-field arithmetic instead of IEEE doubles (strict monotonicity of linspace and exact moment equality on extension are exact-field facts, monitored on doubles to tolerance); NaN/inf populations and NumPy length-1 broadcasting are outside the model; radii are assumed non-negative (cMin >= 0), and positive (cMin > 0) while recording, because _grabPSDfromIndex counts non-zero boundaries; saveRecordedPSD/loadRecordedPSD are modelled as an exact copy of the three arrays (the npz layer is trusted).  The full claim "re-meshing preserves M3 whenever the new grid covers the populated range" is FALSE of the code (recorded finding remesh-vanish-no-new-centre-in-support); the theorem proved is the iff-characterisation.  adjustSizeClassesEuler can raise IndexError (PSDsize[int(minBins/2)] on a grid with fewer classes) and record()/UpdatePBMEuler can raise ValueError when the record is narrower than the grid (bins > maxBins, or adaptive binning switched off after records were taken): the model returns none there, the invariant theorem speaks about successful operations, and the oracle accepts exactly these raises in a valid stream; any other exception of the code under test is reported as a violation keyed by the operation and by the operation that last replaced the grid.',
     'technique': 'Lean 4 proof over ordered fields (induction over operation sequences) + model/implementation differential correspondence on operation sequences + direct oracle with delta-debugging of failing sequences',
     'design_ref': 'DESIGN.md section 6, C08',
 }
@@ -25,7 +31,7 @@ ASSUMPTIONS = [
     'populations and radii are finite doubles; sequences are cut when a NaN/inf appears (only reachable from precondition-violating input)',
     'preconditions of the invariant theorem: class counts >= 1, cMin < max(10 cMin, cMax) for a re-mesh, minBins,maxBins >= 1 for the automatic adjustment, supplied distributions of the right length (update) and non-negative (direct assignment)',
     'threshold decisions (PSD > 1, < 1) are compared only when no population lies within 1e-9 (relative) of the threshold without being equal to it',
-    'PSD recording is off (record() is a no-op)',
+    'while recording: cMin > 0 (a zero lower boundary is not counted by _grabPSDfromIndex and the last class of the record is lost)',
 ]
 TRUSTED = ['np.linspace / np.interp / np.histogram / np.amax semantics as modelled in KawinV.Grid (compared on every run)']
 
@@ -106,9 +112,14 @@ def gen_recipe(rng, stream):
         c = rng.choices(['update', 'adjust', 'mom', 'backup', 'revert', 'add', 'change'], [30, 40, 8, 5, 4, 6, 7])[0]
     elif stream == 'kwn-dissolve':
         c = rng.choices(['update', 'adjust', 'mom', 'load', 'change', 'setpsd'], [30, 40, 8, 8, 6, 8])[0]
+    elif stream == 'recording':
+        c = rng.choices(['update', 'setpsd', 'adjust', 'add', 'change', 'backup', 'revert', 'reset', 'adaptive', 'mom',
+                         'enablerec', 'record', 'setrec', 'saverec', 'loadrec'],
+                        [22, 4, 14, 6, 8, 3, 4, 2, 2, 8, 3, 8, 14, 3, 3])[0]
     else:
-        c = rng.choices(['update', 'setpsd', 'load', 'adjust', 'add', 'change', 'backup', 'revert', 'reset', 'adaptive', 'mom'],
-                        [18, 9, 7, 20, 8, 12, 5, 6, 4, 3, 8])[0]
+        c = rng.choices(['update', 'setpsd', 'load', 'adjust', 'add', 'change', 'backup', 'revert', 'reset', 'adaptive', 'mom',
+                         'enablerec', 'record', 'setrec', 'saverec', 'loadrec'],
+                        [18, 9, 7, 20, 8, 12, 5, 6, 4, 3, 8, 1, 2, 3, 1, 1])[0]
     if c == 'update':
         d = rng.choice(DISTS) if stream not in ('kwn-growth', 'kwn-dissolve') else \
             rng.choice(['bump', 'lastfull', 'lastfull'] if stream == 'kwn-growth' else ['lowbump', 'lowbump', 'isolated', 'single'])
@@ -138,7 +149,27 @@ def gen_recipe(rng, stream):
         return ['adaptive', rng.random() < 0.6]
     if c == 'mom':
         return ['mom', rng.choice([0, 1, 2, 3, 3]), s]
+    if c == 'record':
+        return ['record', 'back' if (stream == 'malformed' and rng.random() < 0.3) else rng.choice(['fwd', 'fwd', 'fwd', 'same']), s]
+    if c == 'setrec':
+        return ['setrec', rng.choice(['before', 'after', 'after', 'exact', 'between', 'between', 'between', 'mid']), s]
     return [c]
+
+
+GRID_CHANGING = ('add', 'change', 'adjust', 'revert', 'reset', 'setrec', 'loadrec')
+
+
+def interleave_moments(rng, recipes):
+    """moment queries (all ...FromN variants, orders 0-3, each evaluated twice) around every operation that can replace the
+    grid, so that anything remembered from the previous grid would be warm before and consulted after the change"""
+    out = []
+    for rc in recipes:
+        if rc[0] in GRID_CHANGING and rng.random() < 0.5:
+            out.append(['mom', rng.choice([0, 1, 2, 3]), rng.getrandbits(32)])
+        out.append(rc)
+        if rc[0] in GRID_CHANGING and rng.random() < 0.7:
+            out.append(['mom', rng.choice([0, 1, 2, 3]), rng.getrandbits(32)])
+    return out
 
 
 FIXED_CASES = [
@@ -153,6 +184,16 @@ FIXED_CASES = [
      [['update', 'bump', 3], ['backup'], ['add', 3], ['update', 'lastfull', 4], ['revert'], ['mom', 1, 5]], 'backup-revert'),
     (dict(cMin=1e-10, cMax=1e-9, bins=10, minBins=5, maxBins=20),
      [['update', 'bump', 3], ['reset', True], ['revert'], ['adjust', True]], 'reset-revert'),
+    # cache-style histories: moments before and after every way of replacing the grid without reset()
+    (dict(cMin=1e-10, cMax=1e-8, bins=100, minBins=50, maxBins=400),
+     [['update', 'bump', 3], ['backup'], ['add', 5], ['mom', 1, 5], ['revert'], ['mom', 1, 6], ['mom', 3, 7]], 'backup-extend-moment-revert-moment'),
+    (dict(cMin=1e-10, cMax=1e-8, bins=100, minBins=50, maxBins=400),
+     [['enablerec'], ['update', 'bump', 3], ['mom', 2, 4], ['change', 'same', 'scale', None, False, 11], ['mom', 1, 5], ['mom', 3, 5],
+      ['setrec', 'after', 1], ['mom', 1, 6], ['mom', 3, 7], ['saverec'], ['add', 3], ['mom', 0, 8], ['loadrec'], ['setrec', 'after', 2], ['mom', 2, 9]],
+     'record-remesh-moment-load-moment'),
+    (dict(cMin=1e-10, cMax=1e-9, bins=20, minBins=10, maxBins=60),
+     [['enablerec'], ['update', 'bump', 3], ['add', 7], ['update', 'lastfull', 4], ['mom', 3, 1], ['setrec', 'between', 5], ['mom', 3, 2],
+      ['setrec', 'mid', 6], ['mom', 1, 3], ['setrec', 'before', 7], ['mom', 2, 4]], 'record-blend'),
 ]
 
 
@@ -163,7 +204,17 @@ def snapshot(p):
                 size=np.array(p.PSDsize, dtype=float).copy(), prevPsd=np.array(p._prevPSD, dtype=float).copy(),
                 prevBounds=np.array(p._prevPSDbounds, dtype=float).copy(),
                 origMin=float(p.originalMin), origMax=float(p.originalMax), origBins=int(p.originalBins),
-                minBins=int(p.minBins), maxBins=int(p.maxBins))
+                minBins=int(p.minBins), maxBins=int(p.maxBins), **rec_summary(p))
+
+
+def rec_summary(p):
+    rb, rp, rt = p._recordedBins, p._recordedPSD, p._recordedTime
+    if rb is None or rp is None or rt is None:
+        return dict(recording=bool(p._record), nrows=0, wB=0, wP=0, lastB=np.zeros(0), lastP=np.zeros(0), lastT=0.0, sumB=0.0, sumP=0.0, sumT=0.0)
+    rb = np.asarray(rb, dtype=float); rp = np.asarray(rp, dtype=float); rt = np.asarray(rt, dtype=float)
+    return dict(recording=bool(p._record), nrows=int(rb.shape[0]), wB=int(rb.shape[1]), wP=int(rp.shape[1]),
+                lastB=rb[-1].copy(), lastP=rp[-1].copy(), lastT=float(rt[-1]),
+                sumB=float(rb.sum()), sumP=float(rp.sum()), sumT=float(rt.sum()))
 
 
 def finite_state(s):
@@ -176,12 +227,35 @@ def materialise(p, rc):
     n = int(p.bins)
     if t in ('update', 'setpsd'):
         kind, seed = rc[1], rc[2]
+        tm = ()
+        if t == 'update':      # UpdatePBMEuler(time, N) records at `time` when recording is on
+            tm = (next_time(p, 'fwd', seed),)
         if kind == 'badlen':
             r = random.Random(seed)
             m = n + r.choice([-1, 1, 2, 3]) if n >= 3 else n + r.choice([1, 2])
             m = max(2, m)
-            return (t, make_dist('bump', m, seed))
-        return (t, make_dist(kind, n, seed, rc[3] if len(rc) > 3 else None))
+            return (t,) + tm + (make_dist('bump', m, seed),)
+        return (t,) + tm + (make_dist(kind, n, seed, rc[3] if len(rc) > 3 else None),)
+    if t == 'record':
+        return ('record', next_time(p, rc[1], rc[2]))
+    if t == 'setrec':
+        r = random.Random(rc[2])
+        rt = p._recordedTime
+        if rt is None or len(rt) == 0:
+            return ('setrec', r.uniform(0, 10))
+        rt = [float(x) for x in rt]
+        kind = rc[1]
+        if kind == 'before':
+            tm = rt[0] - r.choice([0.0, 1.0])
+        elif kind == 'after':
+            tm = rt[-1] + r.choice([0.0, 0.0, 2.5])
+        elif kind == 'exact':
+            tm = r.choice(rt)
+        elif kind == 'mid' and len(rt) >= 2:
+            j = r.randrange(len(rt) - 1); tm = 0.5 * (rt[j] + rt[j + 1])
+        else:
+            tm = r.uniform(min(rt), max(rt))
+        return ('setrec', float(tm))
     if t == 'load':
         kind, seed = rc[1], rc[2]
         r = np.random.default_rng(seed)
@@ -234,6 +308,17 @@ def materialise(p, rc):
     return tuple(rc)
 
 
+def next_time(p, kind, seed):
+    rt = p._recordedTime
+    last = float(rt[-1]) if (rt is not None and len(rt)) else 0.0
+    r = random.Random(seed)
+    if kind == 'same':
+        return last
+    if kind == 'back':
+        return last - r.uniform(0.5, 3.0)
+    return last + r.choice([1.0, 0.5, r.uniform(0.01, 10.0)])
+
+
 def pre_ok(p, op):
     """stated precondition of the invariant theorem for this operation (KawinV.Props.C08.Pre)"""
     t = op[0]
@@ -245,7 +330,9 @@ def pre_ok(p, op):
     if t == 'adjust':
         return p.minBins >= 1 and p.maxBins >= 1
     if t == 'update':
-        return len(op[1]) == p.bins and bool(np.all(np.isfinite(op[1])))
+        return len(op[2]) == p.bins and bool(np.all(np.isfinite(op[2]))) and (not p._record or p.min > 0)
+    if t == 'record':
+        return (not p._record) or p.min > 0      # a zero lower boundary is not counted by _grabPSDfromIndex
     if t == 'setpsd':
         return len(op[1]) == p.bins and bool(np.all(op[1] >= 0))
     return True
@@ -259,7 +346,11 @@ def tokens(op):
         return 'add %d' % op[1]
     if t == 'change':
         return 'change %s %s %s %s' % (f2b(op[1]), f2b(op[2]), 'none' if op[3] is None else str(op[3]), vlib.enc_bool(op[4]))
-    if t in ('update', 'setpsd', 'load'):
+    if t == 'update':
+        return 'update %s %s' % (f2b(op[1]), enc_list(op[2]))
+    if t in ('record', 'setrec'):
+        return '%s %s' % (t, f2b(op[1]))
+    if t in ('setpsd', 'load'):
         return '%s %s' % (t, enc_list(op[1]))
     if t == 'mom':
         return 'mom %d %s %s' % (op[1], enc_list(op[2]), enc_list(op[3]))
@@ -398,19 +489,48 @@ def call_moments(p, k, N, w):
             p.SecondMomentFromN(N), p.ThirdMomentFromN(N)]
 
 
+import itertools
+COUNTER = itertools.count()
+_TMP = []
+
+
+def tmpdir():
+    if not _TMP:
+        _TMP.append(tempfile.mkdtemp(prefix='c08rec_'))
+        atexit.register(shutil.rmtree, _TMP[0], True)
+    return _TMP[0]
+
+
 def run_impl(init, recipes, res=None):
     """execute a sequence on the real object.  Returns dict(line, steps, violations, cut, valid)
     steps: list of dict(op, kind 'S'|'Q'|'E', snap, ret / q)"""
     vlib.use_repo()
     from kawin.precipitation.PopulationBalance import PopulationBalanceModel
     viol = []
-    p = PopulationBalanceModel(cMin=init['cMin'], cMax=init['cMax'], bins=init['bins'], minBins=init['minBins'], maxBins=init['maxBins'])
-    s0 = snapshot(p)
     valid = init['bins'] >= 1 and init['cMin'] >= 0 and init['cMin'] < max(10 * init['cMin'], init['cMax'])
     case = {'init': init, 'recipes': recipes}
 
     def violate(key, what, obs=None, req=None, at=None):
         viol.append({'key': key, 'what': what, 'case': dict(case, at=at), 'observed': obs, 'required': req})
+
+    # RULE: an exception from the code under test never leaves this function; it becomes a violation (when the stream
+    # met every precondition) or an 'E' step compared with the model (malformed stream)
+    try:
+        p = PopulationBalanceModel(cMin=init['cMin'], cMax=init['cMax'], bins=init['bins'], minBins=init['minBins'], maxBins=init['maxBins'])
+        s0 = snapshot(p)
+    except Exception as e:
+        err = type(e).__name__ + ': ' + str(e)[:100]
+        if res is not None:
+            res.count('raised:constructor:' + type(e).__name__)
+        if valid:
+            violate('raises:constructor:' + type(e).__name__, 'the constructor raised on a valid grid description (%s)' % err, err, at=-1)
+        return dict(line=None, steps=[], s0=None, violations=viol, cut='constructor-raised', valid=False)
+    recfile = os.path.join(tmpdir(), 'rec_%d.npz' % next(COUNTER))
+    my_recs = None        # independent copy of what was recorded: list of (time, bounds|None, psd|None); None = the all-zero first record
+    my_saved = None
+    rec_dirty = False     # something was recorded while a precondition was already violated
+    hist = []             # tags of the state-changing operations so far
+    replacer = 'construction'   # the operation that last changed the class boundaries
 
     if valid:
         r = check_consistency(s0)
@@ -453,21 +573,35 @@ def run_impl(init, recipes, res=None):
             if not (len(p.PSDsize) == len(N) == len(p.PSD)):
                 continue      # inconsistent object (malformed stream): numpy would broadcast or raise; skip the query
             keep = p.PSD
-            a = call_moments(p, k, N.copy(), w.copy())
-            p.PSD = np.asarray(keep, dtype=float) * 3.0 + 7.0
-            b = call_moments(p, k, N.copy(), w.copy())
+            try:
+                a = call_moments(p, k, N.copy(), w.copy())
+                p.PSD = np.asarray(keep, dtype=float) * 3.0 + 7.0
+                b = call_moments(p, k, N.copy(), w.copy())
+            except Exception as e:
+                p.PSD = keep
+                if res is not None:
+                    res.count('raised:mom:' + type(e).__name__)
+                violate('moment-raises-after:' + replacer,
+                        'a ...FromN moment function raised %s: %s on a distribution of the right length; the grid was last replaced by %s (operations before: %s)'
+                        % (type(e).__name__, str(e)[:100], replacer, '>'.join(hist[-4:])), type(e).__name__ + ': ' + str(e)[:100], at=i)
+                continue
             p.PSD = keep
             sz = np.asarray(p.PSDsize, dtype=float)
             ref = [np.sum(N * sz ** k), np.cumsum(N * sz ** k), np.sum(N * sz ** k * w), np.cumsum(N * sz ** k * w),
                    np.sum(N), np.sum(N * sz), np.sum(N * sz ** 2), np.sum(N * sz ** 3)]
+            wrong = []
             for name, x, y, z in zip(MOMFUNCS, a, b, ref):
                 if not np.array_equal(np.asarray(x), np.asarray(y)):
                     violate('moment-%s-depends-on-self.PSD' % name,
                             '%s(N, ...) changes when only self.PSD changes (same N, same grid)' % name,
                             np.asarray(x).ravel()[:4].tolist(), np.asarray(y).ravel()[:4].tolist(), at=i)
                 elif not arr_close(np.atleast_1d(x), np.atleast_1d(z), 1e-11):
-                    violate('moment-%s-wrong-value' % name, '%s(N, ...) is not the moment of N on the current grid' % name,
-                            np.asarray(x).ravel()[:4].tolist(), np.asarray(z).ravel()[:4].tolist(), at=i)
+                    wrong.append((name, np.asarray(x).ravel()[:3].tolist(), np.asarray(z).ravel()[:3].tolist()))
+            if wrong:
+                violate('moment-wrong-value-after:' + replacer,
+                        '%s evaluated on a supplied distribution is not sum N_i R_i^order on the current grid; the grid was last replaced by %s '
+                        '(operations before: %s)' % (', '.join(n for n, _, _ in wrong), replacer, '>'.join(hist[-4:])),
+                        [w[1] for w in wrong][:3], [w[2] for w in wrong][:3], at=i)
             after = snapshot(p)
             if not all(np.array_equal(after[f], prev[f]) for f in ('psd', 'bounds', 'size')):
                 violate('moment-call-modifies-state', 'a ...FromN call modified the grid or the distribution', at=i)
@@ -477,7 +611,10 @@ def run_impl(init, recipes, res=None):
         toks.append(tokens(op))
         ret = None
         err = None
+        hist.append(t)
+        was_recording = bool(p._record)
         try:
+          with contextlib.redirect_stdout(io.StringIO()):
             if t == 'reset':
                 p.reset(op[1])
             elif t == 'add':
@@ -487,7 +624,17 @@ def run_impl(init, recipes, res=None):
             elif t == 'adjust':
                 ret = p.adjustSizeClassesEuler(op[1])
             elif t == 'update':
-                p.UpdatePBMEuler(0.0, op[1].copy())
+                p.UpdatePBMEuler(op[1], op[2].copy())
+            elif t == 'enablerec':
+                p.enableRecording()
+            elif t == 'record':
+                p.record(op[1])
+            elif t == 'setrec':
+                p.setPSDtoRecordedTime(op[1])
+            elif t == 'saverec':
+                p.saveRecordedPSD(recfile)
+            elif t == 'loadrec':
+                p.loadRecordedPSD(recfile)
             elif t == 'backup':
                 p.createBackup()
             elif t == 'revert':
@@ -498,15 +645,40 @@ def run_impl(init, recipes, res=None):
                 p.LoadDistribution(op[1].copy())
             elif t == 'adaptive':
                 p.setAdaptiveBinSize(op[1])
-        except (IndexError, ValueError, ZeroDivisionError, FloatingPointError) as e:
+        except Exception as e:
             err = type(e).__name__ + ': ' + str(e)[:80]
         valid = valid and pre
+        post = None
+        if err is None:
+            try:
+                post = snapshot(p)
+            except Exception as e:
+                err = 'snapshot ' + type(e).__name__ + ': ' + str(e)[:80]
         if err is not None:
             if res is not None:
                 res.count('raised:' + t + ':' + err.split(':')[0])
             steps.append(dict(op=op, kind='E', err=err, snap=None, pre=pre, valid=valid))
             if valid:
-                # an exception inside a valid stream (only the class-index lookup of adjust can do that):
+                # documented limits of the code that also the model reports as a raising operation:
+                #  - adjust looks up PSDsize[int(minBins/2)] (IndexError on a grid with fewer classes)
+                #  - record / UpdatePBMEuler while recording: the record is narrower than the grid, or np.pad is asked to shrink it
+                allowed = False
+                try:
+                    if t == 'adjust' and err.startswith('IndexError') and int(p.minBins / 2) >= len(p.PSDsize):
+                        allowed = True
+                    if t == 'loadrec' and err.startswith('FileNotFoundError') and not os.path.exists(recfile):
+                        allowed = True      # nothing was saved yet
+                    if t in ('record', 'update') and was_recording and err.startswith('ValueError'):
+                        mb = p.maxBins if p._adaptiveBinSize else p.bins
+                        allowed = (mb + 1 < p._recordedBins.shape[1] or mb < p._recordedPSD.shape[1]
+                                   or len(p.PSDbounds) > mb + 1 or len(p.PSD) > mb)
+                except Exception:
+                    allowed = False
+                if not allowed:
+                    tail = '>'.join(hist[-4:-1]) or 'construction'
+                    violate('raises:%s:%s-after:%s' % (t, err.split(':')[0], replacer),
+                            '%s raised (%s) although every operation so far met its precondition; the grid was last replaced by %s (operations before: %s)'
+                            % (t, err, replacer, tail), err, at=i)
                 # the object must still be consistent
                 try:
                     r = check_consistency(snapshot(p))
@@ -515,7 +687,6 @@ def run_impl(init, recipes, res=None):
                 if r:
                     violate('consistency:%s-raised:%s' % (t, r), 'after %s raised (%s) the grid is inconsistent (%s)' % (t, err, r), at=i)
             break
-        post = snapshot(p)
         if not finite_state(post):
             toks.pop()            # NaN/inf is outside the model: the sequence ends before this operation
             cut = 'non-finite'
@@ -524,14 +695,21 @@ def run_impl(init, recipes, res=None):
             break
         steps.append(dict(op=op, kind='S', snap=post, ret=ret, pre=pre, valid=valid))
         at = i
+        if not np.array_equal(post['bounds'], prev['bounds']):
+            replacer = t
         # ---------------------------------------------------------------- direct oracle
         if (post['origMin'], post['origMax'], post['origBins'], post['minBins'], post['maxBins']) != \
            (s0['origMin'], s0['origMax'], s0['origBins'], s0['minBins'], s0['maxBins']):
             violate('configuration-modified-by-' + t, 'originalMin/originalMax/originalBins/minBins/maxBins changed', at=at)
         remeshed = (t == 'change' and not op[4]) or (t == 'adjust' and ret is not None and ret[0] and ret[1] is None)
         full_reset = (t == 'reset' and op[1]) or (t == 'change' and op[4])
-        if full_reset and s0['origBins'] >= 1 and s0['origMin'] < s0['origMax']:
-            valid = True          # reset(True) re-establishes the invariant whatever happened before
+        recorded_now = was_recording and t in ('record', 'update')
+        if recorded_now and not valid:
+            rec_dirty = True
+        if t == 'enablerec':
+            rec_dirty = not (s0['origBins'] >= 1 and 0 <= s0['origMin'] < s0['origMax'])
+        if full_reset and s0['origBins'] >= 1 and 0 <= s0['origMin'] < s0['origMax'] and not rec_dirty:
+            valid = True          # reset(True) re-establishes the invariant whatever happened before (the records must be clean too)
         if valid:
             r = check_consistency(post)
             if r:
@@ -606,6 +784,33 @@ def run_impl(init, recipes, res=None):
             bk_noise = None
         steps[-1]['psd_atol'] = noise
         steps[-1]['prev_atol'] = bk_noise
+        # records: enable / record / save / load, and what setPSDtoRecordedTime must give back at or beyond the ends
+        if t == 'enablerec':
+            my_recs = [(0.0, None, None)]
+        elif recorded_now and my_recs is not None:
+            my_recs.append((float(op[1]), post['bounds'].copy(), post['psd'].copy()))
+        elif t == 'saverec' and was_recording and my_recs is not None:
+            my_saved = list(my_recs)
+        elif t == 'loadrec':
+            my_recs = list(my_saved) if my_saved is not None else None
+        if t in ('enablerec', 'record', 'update', 'loadrec') and valid and my_recs is not None and post['nrows'] != len(my_recs):
+            violate('record-count', 'the number of stored records is not the number of record() calls since enableRecording', post['nrows'], len(my_recs), at=at)
+        if t == 'setrec' and valid and was_recording and my_recs:
+            want = None
+            if op[1] <= my_recs[0][0]:
+                want = my_recs[0]
+            elif op[1] >= my_recs[-1][0]:
+                want = my_recs[-1]
+            if want is not None:
+                wb = np.linspace(s0['origMin'], s0['origMax'], s0['origBins'] + 1) if want[1] is None else want[1]
+                wp = np.zeros(s0['origBins']) if want[2] is None else want[2]
+                if not (np.array_equal(post['bounds'], wb) and np.array_equal(post['psd'], wp) and post['bins'] == len(wp)):
+                    violate('setrec-does-not-restore-record', 'setPSDtoRecordedTime at/beyond the first/last recorded time did not give back that record',
+                            summary(post), dict(bins=len(wp), bounds_head=wb[:3].tolist(), psd_sum=float(np.sum(wp))), at=at)
+        if t in ('setrec', 'loadrec', 'enablerec'):
+            noise = None if t != 'setrec' else noise
+        if t == 'setrec' and was_recording:
+            noise = np.zeros(len(post['psd']))      # blended / re-expressed populations are computed values
         # backup / revert
         if t == 'backup':
             backup = (prev['psd'].copy(), prev['bounds'].copy())
@@ -616,6 +821,8 @@ def run_impl(init, recipes, res=None):
                     and post['min'] == backup[1][0] and post['max'] == backup[1][-1]):
                 violate('revert-does-not-restore-backup', 'revert did not restore the distribution/grid saved by createBackup', at=at)
         prev = post
+    with contextlib.suppress(OSError):
+        os.remove(recfile)
     line = 'grid.run %s %s %d %d %d %d %s' % (f2b(init['cMin']), f2b(init['cMax']), init['bins'], init['minBins'], init['maxBins'],
                                                 len(toks), ' '.join(toks))
     return dict(line=line.strip(), steps=steps, s0=s0, violations=viol, cut=cut, valid=valid)
@@ -651,6 +858,11 @@ class Cur:
         s = dict(min=self.flt(), max=self.flt(), bins=int(self.tok()), adaptive=self.tok() == 'T')
         for f in ('psd', 'bounds', 'size', 'prevPsd', 'prevBounds'):
             s[f] = self.arr(prev[f] if prev else None)
+        s['recording'] = self.tok() == 'T'
+        s['nrows'], s['wB'], s['wP'] = int(self.tok()), int(self.tok()), int(self.tok())
+        s['lastB'] = self.arr(prev['lastB'] if prev else None)
+        s['lastP'] = self.arr(prev['lastP'] if prev else None)
+        s['lastT'], s['sumB'], s['sumP'], s['sumT'] = self.flt(), self.flt(), self.flt(), self.flt()
         return s
 
 
@@ -670,11 +882,24 @@ def compare_state(impl, mod, psd_atol=None, prev_atol=None):
     for f, name, atol in (('psd', 'PSD', psd_atol), ('size', 'PSDsize', None), ('prevPsd', '_prevPSD', prev_atol)):
         if not arr_close(impl[f], mod[f], 1e-9, atol):
             return name
+    if impl['recording'] != mod['recording']:
+        return '_record'
+    if (impl['nrows'], impl['wB'], impl['wP']) != (mod['nrows'], mod['wB'], mod['wP']):
+        return 'shape of the recorded arrays'
+    if ulps_arr(impl['lastB'], mod['lastB']) > 4:
+        return '_recordedBins[-1]'
+    if not arr_close(impl['lastP'], mod['lastP'], 1e-9, np.append(psd_atol, np.zeros(len(impl['lastP']) - len(psd_atol)))
+                     if (psd_atol is not None and len(psd_atol) <= len(impl['lastP'])) else None):
+        return '_recordedPSD[-1]'
+    if not (close(impl['lastT'], mod['lastT'], 1e-12) and close(impl['sumT'], mod['sumT'], 1e-9) and close(impl['sumB'], mod['sumB'], 1e-9)):
+        return '_recordedTime / _recordedBins'
     return None
 
 
 def compare(tr, answer):
     """list of (what, at, impl, model) disagreements between an implementation trace and the model's answer"""
+    if tr.get('line') is None:
+        return []
     c = Cur(answer)
     if not c.ok:
         return [('model driver error: ' + answer[:80], -1, 'ok', answer[:80])]
@@ -758,10 +983,15 @@ def ddmin(recipes, failing, budget=80):
     return cur
 
 
+def keyclass(key):
+    """violation key without the operation-history tail (the tail changes while a sequence is shrunk)"""
+    return key.split('-after:')[0]
+
+
 def shrink_violation(init, recipes, key):
     def failing(rs):
         try:
-            return any(v['key'] == key for v in run_impl(init, rs)['violations'])
+            return any(keyclass(v['key']) == keyclass(key) for v in run_impl(init, rs)['violations'])
         except Exception:
             return False
     return ddmin(recipes, failing)
@@ -782,7 +1012,7 @@ def shrink_disagreement(init, recipes):
 def gen_sequences(ctx, nseq, maxlen):
     seqs = [(i, r, 'fixed:' + name) for i, r, name in FIXED_CASES]
     for _ in range(nseq):
-        stream = ctx.rng.choices(['random', 'kwn-growth', 'kwn-dissolve', 'malformed'], [40, 22, 18, 20])[0]
+        stream = ctx.rng.choices(['random', 'kwn-growth', 'kwn-dissolve', 'malformed', 'recording'], [32, 18, 14, 18, 18])[0]
         init = gen_init(ctx.rng, stream)
         if ctx.rng.random() < 0.75:
             L = ctx.rng.randint(1, min(40, maxlen))
@@ -791,6 +1021,19 @@ def gen_sequences(ctx, nseq, maxlen):
         recipes = [gen_recipe(ctx.rng, stream) for _ in range(L)]
         if stream == 'malformed' and ctx.rng.random() < 0.4:
             recipes.insert(0, ['revert'])
+        if stream == 'recording':
+            if init['cMin'] == 0.0:
+                init['cMin'] = 1e-10; init['cMax'] = max(init['cMax'], 1e-9)
+            init['maxBins'] = max(init['maxBins'], 2 * init['bins'])      # room in the record for a few extensions
+            recipes.insert(ctx.rng.randint(0, min(2, len(recipes))), ['enablerec'])
+        if stream != 'malformed':      # loading before anything was saved only ends the sequence: keep that for the malformed stream
+            seen, keep = set(), []
+            for rc in recipes:
+                if rc[0] == 'loadrec' and not {'enablerec', 'saverec'} <= seen:
+                    continue
+                seen.add(rc[0]); keep.append(rc)
+            recipes = keep or [['mom', 1, 1]]
+        recipes = interleave_moments(ctx.rng, recipes)
         seqs.append((init, recipes, stream))
     return seqs
 
@@ -798,16 +1041,26 @@ def gen_sequences(ctx, nseq, maxlen):
 def corr(ctx, nseq=None, oracle_only=False):
     res = Result()
     res.rule = ('operation sequences (length 1-40 quick / up to 400 thorough) from a grammar over reset/add/change/adjust/update/backup/'
-                'revert/direct assignment/LoadDistribution/adaptive switch/moment queries, four streams (random, KWN-like growth, KWN-like '
-                'dissolution, malformed: revert first, bins=1/0, minBins>maxBins, empty histogram, wrong-length or negative distributions, zero-width '
-                'grid) + fixed witness sequences; every attribute compared after every operation; non-trivial = the sequence re-meshes, extends or '
+'revert/direct assignment/LoadDistribution/adaptive switch/enableRecording/record/setPSDtoRecordedTime/saveRecordedPSD/'
+                'loadRecordedPSD, with moment queries (all ...FromN variants, orders 0-3, each evaluated twice) interleaved before and after every '
+                'grid-replacing operation; five streams (random, KWN-like growth, KWN-like dissolution, recording, malformed: revert first, '
+                'bins=1/0, minBins>maxBins, empty histogram, wrong-length or negative distributions, zero-width grid, record times going back) '
+                '+ fixed witness sequences; every attribute compared after every operation; non-trivial = the sequence re-meshes, extends or '
                 'reverts a populated grid; distinct = (initial grid, recipe list)')
     maxlen = ctx.n(40, 400)
     N = nseq or ctx.n(900, 12000)
     seqs = gen_sequences(ctx, N, maxlen)
     traces = []
     for init, recipes, stream in seqs:
-        tr = run_impl(init, recipes, res)
+        try:
+            tr = run_impl(init, recipes, res)
+        except Exception as e:      # belt and braces: nothing the implementation does may stop the run
+            import traceback
+            tb = traceback.format_exc()
+            key = ('implementation' if ('File "%s' % vlib.REPO) in tb else 'harness') + '-exception:' + type(e).__name__
+            tr = dict(line=None, steps=[], s0=None, cut='exception', valid=False,
+                      violations=[{'key': key, 'what': 'running this sequence raised %s: %s' % (type(e).__name__, str(e)[:200]),
+                                   'case': {'init': init, 'recipes': recipes, 'at': None}, 'observed': tb[-600:], 'required': None}])
         tr['init'], tr['recipes'], tr['stream'] = init, recipes, stream
         traces.append(tr)
         if tr['cut'] == 'near-tie':
@@ -819,7 +1072,7 @@ def corr(ctx, nseq=None, oracle_only=False):
         answers = []
         B = 64
         for i in range(0, len(traces), B):
-            answers += vlib.run_driver(PROP, [t['line'] for t in traces[i:i + B]])
+            answers += vlib.run_driver(PROP, [t['line'] or 'grid.skip' for t in traces[i:i + B]])
     shrunk_keys = set()
     for k, tr in enumerate(traces):
         ops = [s['op'][0] for s in tr['steps']]
@@ -832,10 +1085,13 @@ def corr(ctx, nseq=None, oracle_only=False):
         if k in (5, 6):
             res.sample(dict(init=tr['init'], recipes=tr['recipes'][:6], ops=ops[:12], final=summary(tr['steps'][-1]['snap']) if tr['steps'] and tr['steps'][-1]['snap'] else None))
         for v in tr['violations']:
-            if v['key'] not in shrunk_keys:
-                shrunk_keys.add(v['key'])
+            if keyclass(v['key']) not in shrunk_keys:
+                shrunk_keys.add(keyclass(v['key']))
                 small = shrink_violation(tr['init'], tr['recipes'], v['key'])
-                again = [w for w in run_impl(tr['init'], small)['violations'] if w['key'] == v['key']]
+                try:
+                    again = [w for w in run_impl(tr['init'], small)['violations'] if keyclass(w['key']) == keyclass(v['key'])]
+                except Exception:
+                    again = []
                 if again:
                     v = dict(again[0]); v['case'] = dict(v['case'], shrunk_from=len(tr['recipes']))
             res.violations.append(v)
